@@ -1148,10 +1148,13 @@ def FIBER(
 
     A = input.signal
 
+    def total_power(A):  # instantaneous power summed over the polarisations present (A is (N,) or (2, N))
+        return np.abs(A) ** 2 if A.ndim == 1 else (np.abs(A) ** 2).sum(axis=0)
+
     h = (
         length
         if (beta_2 == 0 and beta_3 == 0) or gamma == 0
-        else phi_max / (gamma * (np.abs(A[0]) ** 2 + np.abs(A[1]) ** 2)).max()
+        else phi_max / (gamma * total_power(A)).max()
     )
 
     x_length = h
@@ -1170,7 +1173,7 @@ def FIBER(
             barra_progreso.update(100 * h / length)
 
         h = (
-            phi_max / (gamma * (np.abs(A[0]) ** 2 + np.abs(A[1]) ** 2)).max()
+            phi_max / (gamma * total_power(A)).max()
             if gamma != 0
             else length
         )
